@@ -318,3 +318,17 @@ Fixpoint sqs_wf (pending : bool) (rows : list (list str)) : bool :=
     | _ => negb pending && sqs_wf false rest
     end
   end.
+
+(* ---- us.interactivebrokers: an activity statement is a sequence of sections; the first field
+   of a record names the section, the second is Header / Data / Total / SubTotal.  Booking rows:
+     Trades,Data,Order,Stocks,<cur>,<symbol>,<date, time>,<quantity>,<price>,_,<proceeds>,<commission>,...
+     Deposits & Withdrawals,Data,<cur>,<date>,<description>,<amount>
+     Dividends,Data,<cur>,<date>,<description>,<amount>          (6 fields)
+     Interest,Data,<cur>,<date>,<description>,<amount>           (6 fields)
+     Withholding Tax,Data,<cur>,<date>,<description>,<amount>,<code>
+   Amounts are signed and may carry "," as thousands separator.  ibs_num reads an amount exactly;
+   the importer reads quantity, proceeds and deposit amounts ROUNDED to two places (ibs_num2). *)
+Definition ibs_num (s : str) : option dec := new_from_string (remove_byte 44%Z s).
+Definition ibs_num2 (s : str) : option dec := match ibs_num s with Some d => Some (round d 2) | None => None end.
+(* the security a dividend / tax row is about: the first run of letters and digits of the description *)
+Definition ibs_security (s : str) : str := fst (span is_alnum (drop_while (fun c => negb (is_alnum c)) s)).
